@@ -399,7 +399,14 @@ func (f File) Generate(inputWriter io.Writer, settings GenerateSettings) error {
 	case ImportGenerationModeCombined:
 		// treat all imported files as a part of this file. Do not observe GoPackage.
 		for _, imp := range settings.imported {
-			f.Consts = append(f.Consts, imp.Consts...)
+			for _, c := range imp.Consts {
+				if c.Name == goPackage && c.SimpleType == typeString {
+					// GoPackage is not observed here; copying it from several files
+					// would only produce duplicate go_package consts
+					continue
+				}
+				f.Consts = append(f.Consts, c)
+			}
 			f.Structs = append(f.Structs, imp.Structs...)
 			f.Unions = append(f.Unions, imp.Unions...)
 			f.Messages = append(f.Messages, imp.Messages...)
